@@ -339,4 +339,180 @@ theorem roundInt_rnd (X S : Nat) (hX : X < 2 ^ 52) (hS : 0 < S) :
 
 example : roundInt (rnd 5 2) = 3 ∧ (2 * 5 + 2) / (2 * 2) = 3 := by decide
 
+/-! ## T1 : conversions, sums and small products are exact -/
+
+/-- `a` is the rational `N / D` -/
+def Val (a : F) (N D : Nat) : Prop := (scale a.m 1 a.e).1 * D = N * (scale a.m 1 a.e).2
+
+theorem rneQuot_one (N : Nat) : rneQuot N 1 = N := by
+  unfold rneQuot
+  simp [Nat.mod_one]
+
+/-- a representable value is not changed by the rounding -/
+theorem rnd_pow (M k : Nat) (h1 : 2 ^ 52 ≤ M) (h2 : M < 2 ^ 53) : rnd M (2 ^ k) = ⟨M, -(k : Int)⟩ := by
+  have hg : Good M (2 ^ k) (k : Int) := by
+    unfold Good
+    have e1 : ((k : Int)).toNat = k := by omega
+    have e2 : (-(k : Int)).toNat = 0 := by omega
+    rw [e1, e2]
+    simp only [Nat.pow_zero, Nat.mul_one]
+    exact ⟨Nat.mul_le_mul_right _ h1, Nat.mul_lt_mul_of_pos_right h2 (pow_pos' k)⟩
+  rw [rnd_eq_of_good hg]
+  have e1 : ((k : Int)).toNat = k := by omega
+  have e2 : (-(k : Int)).toNat = 0 := by omega
+  rw [e1, e2]
+  have e3 : 2 ^ k * 2 ^ 0 = 1 * 2 ^ k := by simp
+  rw [e3, rneQuot_mul_right _ _ _ (pow_pos' k), rneQuot_one]
+  unfold norm
+  rw [if_neg (by omega)]
+
+theorem ofNat_zero : ofNat 0 = zero := by decide
+
+/-- `float64(n)` is `n` itself, written with a normalised significand -/
+theorem ofNat_form (n : Nat) (h : n < 2 ^ 53) :
+    ∃ k : Nat, ofNat n = ⟨n * 2 ^ k, -(k : Int)⟩ ∧ (n = 0 ∨ 2 ^ 52 ≤ n * 2 ^ k) ∧ n * 2 ^ k < 2 ^ 53 ∧ k ≤ 52 := by
+  rcases Nat.eq_zero_or_pos n with h0 | h0
+  · subst h0
+    exact ⟨0, by decide, Or.inl rfl, by decide, by decide⟩
+  · have ha1 : 2 ^ n.log2 ≤ n := Nat.log2_self_le (by omega)
+    have ha2 : n < 2 ^ (n.log2 + 1) := Nat.lt_log2_self
+    have ha3 : n.log2 < 53 := (Nat.log2_lt (by omega)).2 h
+    generalize n.log2 = a at *
+    have hlo : 2 ^ 52 ≤ n * 2 ^ (52 - a) := by
+      have : 2 ^ a * 2 ^ (52 - a) ≤ n * 2 ^ (52 - a) := Nat.mul_le_mul_right _ ha1
+      have e : 2 ^ a * 2 ^ (52 - a) = 2 ^ 52 := by rw [← Nat.pow_add]; congr 1; omega
+      omega
+    have hhi : n * 2 ^ (52 - a) < 2 ^ 53 := by
+      have : n * 2 ^ (52 - a) < 2 ^ (a + 1) * 2 ^ (52 - a) := Nat.mul_lt_mul_of_pos_right ha2 (pow_pos' _)
+      have e : 2 ^ (a + 1) * 2 ^ (52 - a) = 2 ^ 53 := by rw [← Nat.pow_add]; congr 1; omega
+      omega
+    refine ⟨52 - a, ?_, Or.inr hlo, hhi, by omega⟩
+    unfold ofNat
+    rw [← rnd_pow _ _ hlo hhi]
+    exact rnd_congr (by omega) (pow_pos' _) (by grind)
+
+theorem val_mk (n k : Nat) : Val ⟨n * 2 ^ k, -(k : Int)⟩ n 1 := by
+  unfold Val
+  simp only [scale_eq]
+  have e1 : (-(k : Int)).toNat = 0 := by omega
+  have e2 : (-(-(k : Int))).toNat = k := by omega
+  rw [e1, e2]
+  simp
+
+theorem ofNat_exact (n : Nat) (h : n < 2 ^ 53) : Val (ofNat n) n 1 := by
+  obtain ⟨k, hk, _⟩ := ofNat_form n h
+  rw [hk]
+  exact val_mk n k
+
+example : Val (ofNat 12345) 12345 1 := ofNat_exact _ (by decide)
+
+theorem add_ofNat (a b : Nat) (h : a + b < 2 ^ 53) : add (ofNat a) (ofNat b) = ofNat (a + b) := by
+  obtain ⟨k, hk, _⟩ := ofNat_form a (by omega)
+  obtain ⟨l, hl, _⟩ := ofNat_form b (by omega)
+  rw [hk, hl]
+  unfold add ofNat
+  apply rndE_congr (by omega) (by omega)
+  simp only
+  rcases Nat.le_total k l with hkl | hkl
+  · have e0 : min (-(k : Int)) (-(l : Int)) = -(l : Int) := by omega
+    rw [e0]
+    have e1 : (-(k : Int) - -(l : Int)).toNat = l - k := by omega
+    have e2 : (-(l : Int) - -(l : Int)).toNat = 0 := by omega
+    have e3 : (-(l : Int)).toNat = 0 := by omega
+    have e4 : (-(-(l : Int))).toNat = l := by omega
+    rw [e1, e2, e3, e4]
+    have : 2 ^ l = 2 ^ k * 2 ^ (l - k) := by rw [← Nat.pow_add]; congr 1; omega
+    rw [this]
+    grind
+  · have e0 : min (-(k : Int)) (-(l : Int)) = -(k : Int) := by omega
+    rw [e0]
+    have e1 : (-(l : Int) - -(k : Int)).toNat = k - l := by omega
+    have e2 : (-(k : Int) - -(k : Int)).toNat = 0 := by omega
+    have e3 : (-(k : Int)).toNat = 0 := by omega
+    have e4 : (-(-(k : Int))).toNat = k := by omega
+    rw [e1, e2, e3, e4]
+    have : 2 ^ k = 2 ^ l * 2 ^ (k - l) := by rw [← Nat.pow_add]; congr 1; omega
+    rw [this]
+    grind
+
+theorem mul_ofNat (w c : Nat) (hw : w < 2 ^ 53) (hc : c < 2 ^ 53) : mul (ofNat w) (ofNat c) = rnd (w * c) 1 := by
+  obtain ⟨k, hk, _⟩ := ofNat_form w hw
+  obtain ⟨l, hl, _⟩ := ofNat_form c hc
+  rw [hk, hl]
+  unfold mul
+  apply rndE_congr (by omega) (by omega)
+  simp only
+  have e1 : (-(k : Int) + -(l : Int)).toNat = 0 := by omega
+  have e2 : (-(-(k : Int) + -(l : Int))).toNat = k + l := by omega
+  rw [e1, e2]
+  grind
+
+/-- a product below `2^53` is exact -/
+theorem mul_ofNat_exact (w c : Nat) (hw : w < 2 ^ 53) (hc : c < 2 ^ 53) (h : w * c < 2 ^ 53) :
+    mul (ofNat w) (ofNat c) = ofNat (w * c) ∧ Val (mul (ofNat w) (ofNat c)) (w * c) 1 := by
+  have := mul_ofNat w c hw hc
+  refine ⟨this, ?_⟩
+  rw [this]
+  exact ofNat_exact _ h
+
+example : Val (mul (ofNat 3000000) (ofNat 1000000000)) (3000000 * 1000000000) 1 :=
+  (mul_ofNat_exact _ _ (by decide) (by decide) (by decide)).2
+
+theorem div_ofNat (X S : Nat) (hX : X < 2 ^ 53) (hS0 : 0 < S) (hS : S < 2 ^ 53) :
+    div (ofNat X) (ofNat S) = rnd X S := by
+  obtain ⟨k, hk, _⟩ := ofNat_form X hX
+  obtain ⟨l, hl, hl2, _⟩ := ofNat_form S hS
+  rw [hk, hl]
+  unfold div
+  apply rndE_congr (Nat.mul_pos hS0 (pow_pos' _)) hS0
+  simp only
+  rcases Nat.le_total k l with hkl | hkl
+  · have e1 : (-(k : Int) - -(l : Int)).toNat = l - k := by omega
+    have e2 : (-(-(k : Int) - -(l : Int))).toNat = 0 := by omega
+    rw [e1, e2]
+    have : 2 ^ l = 2 ^ k * 2 ^ (l - k) := by rw [← Nat.pow_add]; congr 1; omega
+    rw [this]
+    grind
+  · have e1 : (-(k : Int) - -(l : Int)).toNat = 0 := by omega
+    have e2 : (-(-(k : Int) - -(l : Int))).toNat = k - l := by omega
+    rw [e1, e2]
+    have : 2 ^ k = 2 ^ l * 2 ^ (k - l) := by rw [← Nat.pow_add]; congr 1; omega
+    rw [this]
+    grind
+
+theorem foldl_add_ofNat (cs : List Nat) : ∀ acc : Nat, acc + cs.sum < 2 ^ 53 →
+    cs.foldl (fun s c => add s (ofNat c)) (ofNat acc) = ofNat (acc + cs.sum) := by
+  induction cs with
+  | nil => intro acc _; simp
+  | cons c cs ih =>
+    intro acc h
+    simp only [List.foldl_cons, List.sum_cons] at h ⊢
+    rw [add_ofNat acc c (by omega), ih (acc + c) (by omega)]
+    congr 1
+    omega
+
+/-- a sum below `2^53` is exact, whatever the order -/
+theorem sumF_exact (cs : List Nat) (h : cs.sum < 2 ^ 53) : sumF cs = ofNat cs.sum ∧ Val (sumF cs) cs.sum 1 := by
+  have : sumF cs = ofNat cs.sum := by
+    unfold sumF
+    rw [← ofNat_zero, foldl_add_ofNat cs 0 (by omega)]
+    congr 1
+    omega
+  refine ⟨this, ?_⟩
+  rw [this]
+  exact ofNat_exact _ h
+
+example : Val (sumF [7, 11, 4000000000]) 4000000018 1 := (sumF_exact _ (by decide)).2
+
+/-! ## T2 : the share given to a father -/
+
+theorem share_exact (w c : Nat) (fs : List Nat) (h1 : w * c < 2 ^ 52) (h2 : 0 < fs.sum) (h3 : fs.sum < 2 ^ 53)
+    (h4 : w < 2 ^ 53) (h5 : c < 2 ^ 53) : share w c fs = ObiVerif.Clean.roundDiv (w * c) fs.sum := by
+  unfold share ObiVerif.Clean.roundDiv
+  rw [(mul_ofNat_exact w c h4 h5 (by omega)).1, (sumF_exact fs h3).1, div_ofNat _ _ (by omega) h2 h3]
+  exact roundInt_rnd _ _ h1 h2
+
+example : share 1000 3 [3, 4] = ObiVerif.Clean.roundDiv (1000 * 3) [3, 4].sum :=
+  share_exact _ _ _ (by decide) (by decide) (by decide) (by decide) (by decide)
+
 end ObiVerif.F64
